@@ -142,6 +142,22 @@ def _build(dest, flavour):
                 raise BuildError("stage1 flex failed on scan.l")
             same = open(os.path.join(work, "stage1scan.c"), "rb").read() == \
                 open(os.path.join(work, "stage2scan.c"), "rb").read()
+            if not same:
+                # The seed scanner (seeds/scan.c) was generated from an older scan.l.  When scan.l changes the way flex reads its
+                # own input, stage 1 (read by the seed's lexer) may differ from stage 2 (read by the new lexer); the fixed point is
+                # then one stage later.  Build flex from stage2scan.c, regenerate, and compare stage 2 with stage 3; that flex is
+                # the one under test.
+                if _run(["gcc"] + cflags + ["-c", "stage2scan.c", "-o", "stage2scan.o"], work, log, env) != 0:
+                    raise BuildError("stage2scan.c does not compile")
+                if _run(["gcc", "-o", "flex"] + objs + ["stage2scan.o"] + ldflags, work, log, env) != 0:
+                    raise BuildError("flex link failed (stage 2)")
+                with open(os.path.join(work, "stage3scan.c"), "w") as out:
+                    rc = _run(["./flex", "-o", "scan.c", "-t", "scan.l"], work, log, env, stdout=out)
+                if rc != 0:
+                    raise BuildError("stage2 flex failed on scan.l")
+                same = open(os.path.join(work, "stage2scan.c"), "rb").read() == open(os.path.join(work, "stage3scan.c"), "rb").read()
+                shutil.copy2(os.path.join(work, "stage2scan.c"), os.path.join(work, "stage1scan.c"))
+                shutil.copy2(os.path.join(work, "stage3scan.c"), os.path.join(work, "stage2scan.c"))
             for f in ("flex", "stage1scan.c", "stage2scan.c", "FlexLexer.h", "parse.h"):
                 shutil.copy2(os.path.join(work, f), os.path.join(dest, f))
             # scanner-side library sources (libfl) for option probes
